@@ -300,6 +300,43 @@ pub fn classify(p: &Prog, arg: &Arg, j: &Judged, cx: &mut Cx) -> Option<&'static
             }
         }
     }
+    // two known mechanisms at once (e.g. the field-specific complement mis-narrows the scrutinee
+    // AND the lenient field access accepts the use): the failure disappears only when both are
+    // neutralised; reported under the first one's signature
+    {
+        let plain = p.render(&arg.src, &Repair::default());
+        let singles: [(&'static str, Repair); 5] = [
+            (SIG_FIELD_COMPL, Repair { alt_subpat: true, ..Default::default() }),
+            (SIG_PARTIAL_PAT, Repair { full_for_partial: true, ..Default::default() }),
+            (SIG_SINGLE_BINDER, Repair { bind_wildcards: true, ..Default::default() }),
+            (SIG_REC_BACKREF, Repair { unfold_rec: true, ..Default::default() }),
+            (SIG_FIELD_UNION, Repair { checked_field: true, ..Default::default() }),
+        ];
+        for i in 0..singles.len() {
+            for k in (i + 1)..singles.len() {
+                let (a, b) = (singles[i].1, singles[k].1);
+                let both = Repair {
+                    guard_tail: false,
+                    checked_field: a.checked_field || b.checked_field,
+                    alt_subpat: a.alt_subpat || b.alt_subpat,
+                    widen_arg: false,
+                    full_for_partial: a.full_for_partial || b.full_for_partial,
+                    unfold_rec: a.unfold_rec || b.unfold_rec,
+                    bind_wildcards: a.bind_wildcards || b.bind_wildcards,
+                };
+                let s1 = p.render(&arg.src, &a);
+                let s2 = p.render(&arg.src, &b);
+                if s1 == plain || s2 == plain {
+                    continue;
+                }
+                let src = p.render(&arg.src, &both);
+                let r = judge_sync(&src, cx);
+                if (r.kind.accepted() && !r.kind.fails()) || (r.kind == Kind::Rejected && matches!(j.kind, Kind::Stuck(_))) {
+                    return Some(singles[i].0);
+                }
+            }
+        }
+    }
     None
 }
 
